@@ -35,7 +35,9 @@ type tier struct {
 }
 
 func tierOf(thorough bool) tier {
-	t := tier{maxR: 5, fullR: 3, twoOldR: 3, scaleR: 0, lagR: 0, budget: 50 * time.Second, maxStates: 12_000_000}
+	// (quick: one scale event per history between the sizes 1..3 since round 6 of the seeding - a scale event that
+	// leaves one of several active ReplicaSets at its size is what seed C17-a5 needs)
+	t := tier{maxR: 5, fullR: 3, twoOldR: 3, scaleR: 3, scaleB: 1, lagR: 0, budget: 300 * time.Second, maxStates: 12_000_000}
 	if thorough {
 		t = tier{maxR: 6, fullR: 4, twoOldR: 5, scaleR: 3, scaleB: 1, lagR: 3, budget: 13 * time.Minute, maxStates: 40_000_000}
 	}
@@ -433,7 +435,7 @@ func Run(r *lib.Report) {
 		"The sync that handles a scaling event (an active ReplicaSet still annotated with the previous Deployment size) is not checked: the property scopes itself to unchanged size.",
 		"Before every sync the Deployment, ReplicaSets, clientset and listers are rebuilt from the canonical state (no informer lag); Deployment.status is recomputed, never carried over: the controller's ReplicaSet decisions do not read it when the max-replicas annotation is present (it always is).",
 		"Out-of-date Deployment status: besides the sync with the recomputed status every state gets up to four more REAL syncs in which the Deployment carries a status.availableReplicas / readyReplicas that an earlier sync could have written before pods changed (truth-1, truth+1, 0, every existing pod); the safety oracles must hold on them too (signature suffix /stale-deployment-status); their successors are not added to the graph (on a controller that never reads the status they equal the ones already there).",
-		"Thorough tier: at most scaleB scale events per history and only from initial states with settled status; initial states with status.replicas = spec.replicas +-1 only for small sizes (see coverage.bounds).",
+		"Scale events: at most scaleB per history (quick: 1, between the sizes 1..3; thorough: 1, sizes 1..3 of a larger domain) and only from initial states with settled status; initial states with status.replicas = spec.replicas +-1 only for small sizes (see coverage.bounds).",
 		"Degradation (available pod becomes unavailable) is explored without a budget, which is a superset of the budgeted histories; degrade, raisePartition and scale edges are not fair edges.",
 		"Convergence: in the graph restricted to syncs and healthy environment steps, every bottom SCC reachable in a slice whose partition is \"100%\" or an integer >= replicas must be the single state {new.spec=replicas, every old.spec=0}.",
 	}
